@@ -319,4 +319,38 @@ Section Lookups.
     replace (num_of h <? ref) with false in Ev by (symmetry; apply N.ltb_ge; exact H1).
     replace (num_of h - ref <? 100) with true in Ev by (symmetry; apply N.ltb_lt; exact H2). exact Ev.
   Qed.
+  (* GetTransaction / GetTransactionReceipt: the blob read under (num, conflicts, index) is the one of that chain block *)
+  Lemma get_transaction_spec h x : stored r h ->
+    match get_transaction r h x with
+    | Ok (e, t) => tx_id t = x /\ get_tx_meta r h x = Ok e /\
+                   exists a s b, anc r h a /\ num_of a = e_num e /\ get_block r a = Some (s, b) /\
+                                 nth_error (b_txs b) (N.to_nat (e_idx e)) = Some t
+    | NotFound => forall a, ~ incl_on r h x a
+    | Fail => False
+    end.
+  Proof.
+    intros Sh. unfold get_transaction. pose proof (get_tx_meta_spec h x Sh) as M.
+    destruct (get_tx_meta r h x) as [e| |]; [| exact M | exact M].
+    destruct M as [_ [a [s [b [t [rc [Ha [En [Hs [Ec [Hb [Ht [Ex _]]]]]]]]]]]]].
+    assert (Eb : afind2 (e_num e, e_conf e) (r_body r) = Some b).
+    { unfold get_block in Hb. rewrite Hs in Hb. rewrite <- En, <- Ec. destruct (afind2 _ (r_body r)); [|discriminate]. congruence. }
+    rewrite Eb, Ht. split; [exact Ex|]. split; [reflexivity|]. exists a, s, b. auto.
+  Qed.
+
+  Lemma get_receipt_spec h x : stored r h ->
+    match get_receipt r h x with
+    | Ok rc => exists e a s b t, get_tx_meta r h x = Ok e /\ anc r h a /\ num_of a = e_num e /\ get_block r a = Some (s, b) /\
+                 nth_error (b_txs b) (N.to_nat (e_idx e)) = Some t /\ tx_id t = x /\
+                 nth_error (b_rcs b) (N.to_nat (e_idx e)) = Some rc
+    | NotFound => forall a, ~ incl_on r h x a
+    | Fail => False
+    end.
+  Proof.
+    intros Sh. unfold get_receipt. pose proof (get_tx_meta_spec h x Sh) as M.
+    destruct (get_tx_meta r h x) as [e| |]; [| exact M | exact M].
+    destruct M as [_ [a [s [b [t [rc [Ha [En [Hs [Ec [Hb [Ht [Ex [Hrc _]]]]]]]]]]]]]].
+    assert (Eb : afind2 (e_num e, e_conf e) (r_body r) = Some b).
+    { unfold get_block in Hb. rewrite Hs in Hb. rewrite <- En, <- Ec. destruct (afind2 _ (r_body r)); [|discriminate]. congruence. }
+    rewrite Eb, Hrc. exists e, a, s, b, t. auto 10.
+  Qed.
 End Lookups.
